@@ -341,6 +341,60 @@ def itemIntCasts (it : Item) : Nat :=
 def Built.intCasts (b : Built) : Nat :=
   ((b.bindings.flatMap id).map itemIntCasts).sum + (b.callbacks.map (fun c => codeIntCasts c.2.asIntCasts c.2.bitops)).sum
 
+/-! ### signal pointers (`format_signal_pointer`) and non-finite double constants (`format_operand`) -/
+
+/-- what `TypeKind::is_const_ref_preferred` distinguishes (typemap/mod.rs, `NamedType`, `PrimitiveType`) -/
+inductive ArgKind where
+  /-- bool, int, uint, double -/
+  | prim
+  | enum
+  /-- `TypeKind::Pointer` (the C++ name ends in `*`) -/
+  | pointer
+  | qstring
+  | qvariant
+  /-- `NamedType::Class` by value: gadgets (QFont, QSize, QColor, …) -/
+  | cls
+  /-- `TypeKind::List`: QStringList, QList<T> -/
+  | list
+deriving DecidableEq, Repr
+
+/-- `TypeKind::is_const_ref_preferred` -/
+def isConstRefPreferred : ArgKind → Bool
+  | .prim | .enum | .pointer => false
+  | .qstring | .qvariant | .cls | .list => true
+
+structure SignalUse where
+  /-- `signal.object_class().qualified_cxx_name()`: the class that declares the signal -/
+  cls : Str
+  name : Str
+  /-- (`qualified_cxx_name()` of the argument type, kind) -/
+  args : List (Str × ArgKind)
+deriving Repr
+
+def overloadArg (a : Str × ArgKind) : Str :=
+  if isConstRefPreferred a.2 then "const ".toList ++ a.1 ++ " &".toList else a.1
+
+def joinWith (sep : Str) : List Str → Str
+  | [] => []
+  | [x] => x
+  | x :: rest => x ++ sep ++ joinWith sep rest
+
+/-- `format_signal_pointer`: `QOverload<{arg_types}>::of(&{class}::{sig_name})` with `arg_types` joined by ", " -/
+def formatSignalPointer (u : SignalUse) : Str :=
+  "QOverload<".toList ++ joinWith ", ".toList (u.args.map overloadArg) ++ ">::of(&".toList ++ u.cls ++ scopeSep ++ u.name ++
+    ")".toList
+
+/-- the double constants that `{:e}` cannot print as a C++ token -/
+inductive NonFinite where
+  | posInf | negInf | nan
+deriving DecidableEq, Repr
+
+/-- `format_operand`, `ConstantValue::Float` arms for NaN and the infinities (61d18c3) -/
+def formatNonFinite : NonFinite → Str
+  | .nan => "qQNaN()".toList
+  | .posInf => "qInf()".toList
+  | .negInf => "-qInf()".toList
+
 /-! ### includes (`collect_system_includes` scans EVERY code body, also those folded to constants) -/
 
 def nodeUses (n : PNode) : List Builtin :=
